@@ -28,6 +28,9 @@ func rulesC08(c *Ctx) {
 	ruleExactInstanceLookup(c) // Server.Flush rejects unknown / empty names only through this lookup
 	ruleRIBCallers(c)
 	ruleUint128Sites(c)
+	// the id Flush is gated on is the running maximum kept by the election (shared with C05)
+	ruleIsNewMaster(c, "C08")
+	ruleRunElectionTable(c)
 	ruleLockDiscipline(c, lockSel{classes: []string{"Server.elecMu"}, pairing: true})
 }
 
